@@ -114,7 +114,8 @@ def m2_accessor(run, project, L):
                 selfobj.attrs.clear()
                 try:
                     if init is not None:
-                        it.call(init, [selfobj], {"name": name, "mask": mask})
+                        given = {"name": name, "mask": mask, "cls": cls}
+                        it.call(init, [selfobj] + [given[r_] for r_ in R["init_args"]], {k_: given[r_] for k_, r_ in R["init_kwargs"].items()})
                     else:
                         selfobj.attrs.update(_name=name, _mask=mask)
                     got = it.call(f, [selfobj, TypeRef("register", attrs={"_value": vec.concrete() if vec.concrete() is not None else vec}), None])
